@@ -54,7 +54,8 @@ Un(w)    == { <<SymN("a", w), Op1(op, w, 1)>> : op \in {"not", "neg"} }
                                    <<SymN("p", 1), SymN("e", w - 1), Op2("concat", w, 1, 2)>>,
                                    <<LitN(Zero(1)), SymN("e", w - 1), Op2("concat", w, 1, 2)>>,
                                    <<SymN("e", w - 1), LitN(Zero(1)), Op2("concat", w, 1, 2)>> } ELSE {})
-Bin(w)   == { <<SymN("a", w), SymN("b", w), Op2(op, w, 1, 2)>> : op \in {"and", "or", "xor", "add", "sub", "mul"} }
+Bin(w)   == { <<SymN("a", w), SymN("b", w), Op2(op, w, 1, 2)>> : op \in {"and", "or", "xor", "add", "sub", "mul", "shl", "lshr", "ashr",
+                                                                            "udiv", "urem", "sdiv", "srem", "smod"} }
             \cup { <<SymN("a", w), LitN(v), Op2(op, w, 1, 2)>> : op \in {"and", "or", "add", "shl", "lshr"}, v \in {One(w), Pow2(w, w-1)} }
             \cup { <<SymN("a", w), Op1("not", w, 1), Op1("not", w, 2)>> }
             \cup { <<SymN("p", 1), SymN("a", w), SymN("b", w), Op3("ite", w, 1, 2, 3)>> }
